@@ -6,46 +6,60 @@ namespace Driver.C08
 
 /-! wire format of tokens:  ws | (c "text") | (i "s") | (l "s") | (n "repr") | (d "repr" "unit") | (o "kind" "text") | (f "name" tok…) -/
 
-partial def getTok : Sexp → Option Tok
-  | .atom "ws" => some .ws
-  | .list [.atom "c", .str s] => some (.comment s)
-  | .list [.atom "i", .str s] => some (.ident s)
-  | .list [.atom "l", .str s] => some (.lit s)
-  | .list [.atom "n", .str s] => some (.num s)
-  | .list [.atom "d", .str r, .str u] => some (.dim r u)
-  | .list [.atom "o", .str k, .str t] => some (.other k t)
-  | .list (.atom "f" :: .str name :: args) => do
-    let as ← args.mapM getTok
-    some (.fn name as)
-  | _ => none
+mutual
+  def getTok : Sexp → Option Tok
+    | .atom "ws" => some .ws
+    | .list [.atom "c", .str s] => some (.comment s)
+    | .list [.atom "i", .str s] => some (.ident s)
+    | .list [.atom "l", .str s] => some (.lit s)
+    | .list [.atom "n", .str s] => some (.num s)
+    | .list [.atom "d", .str r, .str u] => some (.dim r u)
+    | .list [.atom "o", .str k, .str t] => some (.other k t)
+    | .list (.atom "f" :: .str name :: args) =>
+      match getTokL args with
+      | some as => some (.fn name as)
+      | none => none
+    | _ => none
+  def getTokL : List Sexp → Option (List Tok)
+    | [] => some []
+    | x :: xs =>
+      match getTok x, getTokL xs with
+      | some t, some ts => some (t :: ts)
+      | _, _ => none
+end
 
-partial def putTok : Tok → Sexp
-  | .ws => .atom "ws"
-  | .comment s => .list [.atom "c", .str s]
-  | .ident s => .list [.atom "i", .str s]
-  | .lit s => .list [.atom "l", .str s]
-  | .num s => .list [.atom "n", .str s]
-  | .dim r u => .list [.atom "d", .str r, .str u]
-  | .other k t => .list [.atom "o", .str k, .str t]
-  | .fn name args => .list (.atom "f" :: .str name :: args.map putTok)
+mutual
+  def putTok : Tok → Sexp
+    | .ws => .atom "ws"
+    | .comment s => .list [.atom "c", .str s]
+    | .ident s => .list [.atom "i", .str s]
+    | .lit s => .list [.atom "l", .str s]
+    | .num s => .list [.atom "n", .str s]
+    | .dim r u => .list [.atom "d", .str r, .str u]
+    | .other k t => .list [.atom "o", .str k, .str t]
+    | .fn name args => .list (.atom "f" :: .str name :: putTokL args)
+  def putTokL : List Tok → List Sexp
+    | [] => []
+    | t :: ts => putTok t :: putTokL ts
+end
 
 def getToks : Sexp → Option (List Tok)
-  | .list xs => xs.mapM getTok
+  | .list xs => getTokL xs
   | _ => none
 
-def putToks (ts : List Tok) : Sexp := .list (ts.map putTok)
+def putToks (ts : List Tok) : Sexp := .list (putTokL ts)
 
 def getVal : Sexp → Option Val
   | .atom "inherit" => some .inherit
   | .atom "initial" => some .initial
-  | .list (.atom "raw" :: ts) => do some (.raw (← ts.mapM getTok))
+  | .list (.atom "raw" :: ts) => do some (.raw (← getTokL ts))
   | .list [.atom "ok", .str v] => some (.ok v)
   | _ => none
 
 def putVal : Val → Sexp
   | .inherit => .atom "inherit"
   | .initial => .atom "initial"
-  | .raw ts => .list (.atom "raw" :: ts.map putTok)
+  | .raw ts => .list (.atom "raw" :: putTokL ts)
   | .ok v => .list [.atom "ok", .str v]
 
 def getOut : Sexp → Option Out
@@ -185,18 +199,18 @@ def handle (req : Sexp) : Sexp :=
     | .list [.atom "hasvar", t] => do some (ok [ofBool (hasVar (← getTok t))])
     | .list [.atom "resolve", env, ts] => do
       let b ← getEnv env
-      some (ok ((solveTokens b (← getToks ts)).map putTok))
+      some (ok (putTokL (solveTokens b (← getToks ts))))
     | .list [.atom "spec-resolve", env, fuel, ts] => do
       let b ← getEnv env
       match specResolve b (← fuel.asNat?) (← getToks ts) with
-      | .toks r => some (ok (r.map putTok))
+      | .toks r => some (ok (putTokL r))
       | .invalid => some (.list [.atom "invalid"])
       | .outOfFuel => some (.list [.atom "outoffuel"])
     | .list [.atom "cascade", tbl, env, .str prop, .str sh, ts] => do
       let t ← getTables tbl
       let b ← getEnv env
       match cascadePending t.params b prop sh (← getToks ts) with
-      | .invalid s => some (.list (.atom "invalid" :: s.map putTok))
+      | .invalid s => some (.list (.atom "invalid" :: putTokL s))
       | .valid v => some (.list [.atom "valid", putVal v])
     | _ => none
   r.getD (Sexp.err "c08: unknown or malformed request")
